@@ -5,6 +5,7 @@ import (
 	"go/types"
 	"os"
 	"runtime"
+	"sort"
 	"strings"
 
 	"github.com/csgura/fp"
@@ -2045,14 +2046,29 @@ func (r *TypeClassSummonContext) _summonVar(tc metafp.TypeClassDerive) SummonExp
 		// 	return fmt.Sprintf("%s%s %s[%s] ", privateName(v.TypeClass.Name), p.Name, tcname, p.Name)
 		// }).MakeString(",")
 
-		fargs := seq.Map(mapExpr.paramInstance, as.Func3(ParamInstance.Expr).ApplyLast2(r.w, ctx.tc.Package)).MakeString(",")
+		// instance arguments follow the declaration order of the type parameters ( the order in which call sites pass them ),
+		// not the order in which the fields happen to use them
+		paramIndex := func(p ParamInstance) int {
+			for i, tp := range tc.DeriveFor.Info.TypeParam {
+				if tp.Name == p.ParamName {
+					return i
+				}
+			}
+			return len(tc.DeriveFor.Info.TypeParam)
+		}
+		params := append(fp.Seq[ParamInstance]{}, mapExpr.paramInstance...)
+		sort.SliceStable(params, func(i, j int) bool {
+			return paramIndex(params[i]) < paramIndex(params[j])
+		})
+
+		fargs := seq.Map(params, as.Func3(ParamInstance.Expr).ApplyLast2(r.w, ctx.tc.Package)).MakeString(",")
 
 		return newSummonExpr(fmt.Sprintf(`
 						func %s%s( %s ) %s[%s%s] {
 							return %s
 						}
 					`, tc.GeneratedInstanceName(), valuetpdec, fargs, tcname, tc.DeriveFor.PackagedName(r.w, workingPackage), valuetp,
-			mapExpr), mapExpr.paramInstance)
+			mapExpr), params)
 
 	} else {
 		tcname := tc.TypeClass.PackagedName(r.w, workingPackage)
